@@ -468,6 +468,9 @@ func init() {
 		if aok != bok {
 			return false // Marshal output / archive vs. other bytes: never equal in the model
 		}
+		if x.staleBlob(ba) || x.staleBlob(bb) {
+			return false // bytes of a reused buffer: whatever is there now, not this archive
+		}
 		if ba == bb {
 			return true
 		}
